@@ -29,7 +29,7 @@ def record(pid):
     env["RAQOTE_VERIF_TRACE"] = tdir
     repo = os.path.join(core.LAB, "repo") if core.LAB else REPO
     p = subprocess.run(["cargo", "test", "--lib", "--offline", "-q"], cwd=repo, env=env, stdout=subprocess.PIPE, stderr=subprocess.STDOUT,
-                       text=True, timeout=1800)
+                       text=True, timeout=600)
     tail = p.stdout[-1500:]
     # a failing unit test is not this check's business (the recorded calls are still valid executions), a build failure is
     if "test result" not in p.stdout:
